@@ -225,6 +225,16 @@ func c07E2(tier string, o *E2Out) {
 						// namespace markings with the namespace "sel" selected (n <= 3, every marking)
 						for mask := 0; mask < 1<<c.n; mask++ {
 							c07Namespaces(o, dir, c07Input{N: c.n, Edges: edges, Strict: strict, Replicas: 1, NS: mask, UseNS: true})
+							// the same with two replicas of p0 (nothing may depend on a replicated process: recorded finding)
+							dependedOn := false
+							for _, e := range edges {
+								if e[1] == 0 {
+									dependedOn = true
+								}
+							}
+							if !dependedOn && dang < 0 {
+								c07Namespaces(o, dir, c07Input{N: c.n, Edges: edges, Strict: strict, Replicas: 2, NS: mask, UseNS: true})
+							}
 						}
 					}
 				}
@@ -371,6 +381,12 @@ func c07Namespaces(o *E2Out, dir string, in c07Input) {
 		}
 		for i := 0; i < in.N; i++ {
 			if in.NS>>i&1 == 1 {
+				if i == 0 && in.Replicas > 1 {
+					for r := 0; r < in.Replicas; r++ {
+						want = append(want, refReplicaName(c07Name(0), in.Replicas, r))
+					}
+					continue
+				}
 				want = append(want, c07Name(i))
 			}
 		}
